@@ -181,8 +181,7 @@ def realPrims : Prims :=
     cbcEnc := fun k iv pt => baToNats (aesCbcEncrypt (natsToBA k) (natsToBA iv) (natsToBA pt)),
     cbcDec := fun k iv ct => (aesCbcDecrypt (natsToBA k) (natsToBA iv) (natsToBA ct)).map baToNats,
     kwWrap := fun k pt => (aesKwWrap (natsToBA k) (natsToBA pt)).map baToNats,
-    -- OpenSSL's EVP wrap mode accepts zero bytes of input and returns zero bytes (RFC 3394 has no such case)
-    kwUnwrap := fun k ct => if ct.isEmpty then some [] else (aesKwUnwrap (natsToBA k) (natsToBA ct)).map baToNats,
+    kwUnwrap := fun k ct => (aesKwUnwrap (natsToBA k) (natsToBA ct)).map baToNats,
     rsaEnc := rsaEncReal, rsaDec := rsaDecReal, pbkdf2 := pbkdf2Real,
     deflate := fun x => baToNats (Crypto.deflateStored (natsToBA x)), inflate := inflateReal }
 
